@@ -469,25 +469,48 @@ impl fmt::Display for ParseTimestampError {
 impl std::error::Error for ParseTimestampError {}
 
 fn parse_rfc3339(fmt: &str) -> Result<Timestamp, ParseTimestampError> {
-    if fmt.len() > 30 || fmt.len() < 19 {
+    // Work on bytes: every valid timestamp is ASCII, and slicing a `str`
+    // in the middle of a multi-byte character would panic
+    let fmt = fmt.as_bytes();
+
+    if fmt.len() > 30 || fmt.len() < 20 {
         // Invalid length
         return Err(ParseTimestampError {});
     }
 
-    if *fmt.as_bytes().last().unwrap() != b'Z' {
+    if fmt[fmt.len() - 1] != b'Z' {
         // Non-UTC
         return Err(ParseTimestampError {});
     }
 
-    let years = u16::from_str_radix(&fmt[0..4], 10).map_err(|_| ParseTimestampError {})?;
-    let months = u8::from_str_radix(&fmt[5..7], 10).map_err(|_| ParseTimestampError {})?;
-    let days = u8::from_str_radix(&fmt[8..10], 10).map_err(|_| ParseTimestampError {})?;
-    let hours = u8::from_str_radix(&fmt[11..13], 10).map_err(|_| ParseTimestampError {})?;
-    let minutes = u8::from_str_radix(&fmt[14..16], 10).map_err(|_| ParseTimestampError {})?;
-    let seconds = u8::from_str_radix(&fmt[17..19], 10).map_err(|_| ParseTimestampError {})?;
-    let nanos = if fmt.len() > 19 {
+    if fmt[4] != b'-' || fmt[7] != b'-' || fmt[10] != b'T' || fmt[13] != b':' || fmt[16] != b':' {
+        // Invalid separators
+        return Err(ParseTimestampError {});
+    }
+
+    let years = parse_digits(&fmt[0..4])? as u16;
+    let months = parse_digits(&fmt[5..7])? as u8;
+    let days = parse_digits(&fmt[8..10])? as u8;
+    let hours = parse_digits(&fmt[11..13])? as u8;
+    let minutes = parse_digits(&fmt[14..16])? as u8;
+    let seconds = parse_digits(&fmt[17..19])? as u8;
+    let nanos = if fmt.len() > 20 {
+        if fmt[19] != b'.' || fmt.len() == 21 {
+            // Invalid or empty fraction
+            return Err(ParseTimestampError {});
+        }
+
         let subsecond = &fmt[20..fmt.len() - 1];
-        u32::from_str_radix(subsecond, 10).unwrap() * 10u32.pow(9 - subsecond.len() as u32)
+
+        // Scale the fraction up to nanoseconds
+        let mut nanos = parse_digits(subsecond)?;
+        let mut precision = subsecond.len();
+        while precision < 9 {
+            nanos *= 10;
+            precision += 1;
+        }
+
+        nanos
     } else {
         0
     };
@@ -502,6 +525,25 @@ fn parse_rfc3339(fmt: &str) -> Result<Timestamp, ParseTimestampError> {
         nanos,
     })
     .ok_or_else(|| ParseTimestampError {})
+}
+
+// Parse a run of at most 9 ASCII digits; signs and whitespace are not accepted
+fn parse_digits(digits: &[u8]) -> Result<u32, ParseTimestampError> {
+    let mut value: u32 = 0;
+    let mut i = 0;
+
+    while i < digits.len() {
+        let digit = digits[i];
+
+        if digit < b'0' || digit > b'9' {
+            return Err(ParseTimestampError {});
+        }
+
+        value = value * 10 + (digit - b'0') as u32;
+        i += 1;
+    }
+
+    Ok(value)
 }
 
 fn fmt_rfc3339(ts: Timestamp, f: &mut fmt::Formatter) -> fmt::Result {
